@@ -51,13 +51,22 @@ def parseBc (s : String) : Option Bc := do
 
 def vmFuel : Nat := 2000000
 
+/-- translation validation (C07/C08): the verified bytecode verifier `Bcv` runs on the real bytecode; a rejected
+program turns the verdict into a line the implementation can never print -/
+def withBcv (bc : Bc) (model : String) : String :=
+  match Bcv.checkProgram bc.consts bc.main with
+  | .ok _ => result (model ++ " bcv=ok") "nopanic"
+  | .error e => result (model ++ " bcv=" ++ e) ("eq BCV-REJECTED " ++ e)
+
 def run (line : String) : String :=
   match line.splitOn " @@ " with
-  | [_, dump] =>
+  | [hd, dump] =>
     if !dump.startsWith "bc " then result "MODEL-SKIP" "any" else
     match parseBc dump with
     | none => result "MODEL-SKIP" "any"
     | some bc =>
+      -- `vmrun <hex src> static @@ <dump>`: the verifier only (the VM model is not run)
+      if hd.endsWith " static" then withBcv bc "MODEL-SKIP" else
       let (r, st) := Vm.run bc.main bc.consts vmFuel
       let g0 := encVal (reify st.heap reifyDepth (st.globals.getD 0 .null))
       let model := match r with
@@ -67,11 +76,7 @@ def run (line : String) : String :=
         | .error (.unmodelled _) => "MODEL-SKIP"
         | .error .fuel => "MODEL-SKIP"
         | .error .ok => "MODEL-SKIP"
-      -- translation validation (C07/C08): the verified bytecode verifier runs on the real bytecode; a rejected
-      -- program turns the verdict into a line the implementation can never print
-      match Bcv.checkProgram bc.consts bc.main with
-      | .ok _ => result (model ++ " bcv=ok") "nopanic"
-      | .error e => result (model ++ " bcv=" ++ e) ("eq BCV-REJECTED " ++ e)
+      withBcv bc model
   | _ => "bad-op"
 
 end P2sh.Driver.VmDrv
